@@ -72,6 +72,53 @@ func countedPhi(h *ssa.BasicBlock) *ssa.Phi {
 	return nil
 }
 
+// countedBound: the header ends in `if counter < bound` with bound computed from values defined outside
+// the loop (a plain value, or len of a slice defined outside).
+func (f *frame) countedBound(h *ssa.BasicBlock, cp *ssa.Phi, li *loopInfo) (Term, bool) {
+	if len(h.Instrs) == 0 {
+		return Term{}, false
+	}
+	br, ok := h.Instrs[len(h.Instrs)-1].(*ssa.If)
+	if !ok {
+		return Term{}, false
+	}
+	cmp, ok := br.Cond.(*ssa.BinOp)
+	if !ok || cmp.Op != token.LSS || cmp.X != cp {
+		return Term{}, false
+	}
+	// the true branch must stay in the loop
+	if len(h.Succs) != 2 || !li.body[h.Succs[0]] {
+		return Term{}, false
+	}
+	outside := func(v ssa.Value) bool {
+		switch x := v.(type) {
+		case *ssa.Const, *ssa.Parameter, *ssa.FreeVar:
+			return true
+		case ssa.Instruction:
+			return x.Block() != nil && !li.body[x.Block()] && x.Block() != h
+		}
+		return false
+	}
+	if outside(cmp.Y) {
+		if _, known := f.env[cmp.Y]; known || isConst(cmp.Y) {
+			if t, isT := f.val(cmp.Y).(Term); isT {
+				return t, true
+			}
+		}
+		return Term{}, false
+	}
+	if call, isCall := cmp.Y.(*ssa.Call); isCall {
+		if b, isB := call.Call.Value.(*ssa.Builtin); isB && b.Name() == "len" && len(call.Call.Args) == 1 && outside(call.Call.Args[0]) {
+			if sl, isS := f.val(call.Call.Args[0]).(SliceV); isS {
+				return sl.L, true
+			}
+		}
+	}
+	return Term{}, false
+}
+
+func isConst(v ssa.Value) bool { _, ok := v.(*ssa.Const); return ok }
+
 // rangeIter finds the map iterator advanced in this loop header.
 func rangeIter(h *ssa.BasicBlock) *ssa.Range {
 	for _, in := range h.Instrs {
@@ -298,7 +345,13 @@ func (f *frame) enterLoop(b *ssa.BasicBlock, li *loopInfo, phiEntry map[*ssa.Phi
 	if p, _ := rangeIndexPhi(b); p == nil {
 		if cp := countedPhi(b); cp != nil {
 			// a counter that starts at 0 and only ever grows by one is never negative (integers are mathematical)
-			v.ctx.Assert(T(SBool, "(>= %s 0)", asTerm(li.phiVals[cp]).S))
+			cv := asTerm(li.phiVals[cp])
+			v.ctx.Assert(T(SBool, "(>= %s 0)", cv.S))
+			// ... and, when the loop runs while counter < bound for a bound that does not change in the
+			// loop, never exceeds max(bound, 0) - what a range loop gives for free
+			if bound, ok := f.countedBound(b, cp, li); ok {
+				v.ctx.Assert(T(SBool, "(<= %s (ite (> %s 0) %s 0))", cv.S, bound.S, bound.S))
+			}
 		}
 	}
 	// ---- assume the invariants for an arbitrary iteration
